@@ -39,7 +39,7 @@ type Case struct {
 }
 
 func init() {
-	for _, c := range []string{chkEnum, chkRapid, chkDoubles, chkNeg, chkFuzz} {
+	for _, c := range []string{chkEnum, chkRapid, chkDoubles, chkNeg, chkFuzz, chkHuge} {
 		ev.RegisterReplay(c, replay)
 	}
 	ev.RegisterReplay(chkGo, replayGo)
@@ -274,6 +274,24 @@ func TestRapidRespelled(t *testing.T) {
 			check(t, chkRapid, in, nt, fmt.Sprintf("spelling %d of value %s", i, ev.Trunc(string(want), 80)), fmt.Sprintf("respelled:%v", i > 0), "shape:"+shape)
 		}
 	})
+}
+
+// ---- literals beyond every parser's comfort zone --------------------------------------------------------
+
+const chkHuge = "megabyte-number-literals"
+
+// TestHugeLiterals: a handful of well-formed number literals of more than a megabyte whose value is an ordinary
+// double (a digit followed by a million zeros and a matching negative exponent, and the like).
+func TestHugeLiterals(t *testing.T) {
+	ev.Rule(chkHuge, "deterministic: 6 number literals of 1.0-1.1 MB denoting 1, 2.5, -3 and 0.1 (a million zeros before or after the digits, compensated by the exponent), each as the only element of an array; same oracle; non-trivial = every case")
+	z := strings.Repeat("0", 1000001)
+	for i, in := range []string{"[1" + z + "e-1000001]", "[25" + z + "E-1000002]", "[-3" + z + ".0e-1000001]", "[0." + z + "1e1000002]", "[1" + strings.Repeat("0", 800) + "." + z + "e-800]", "[0." + strings.Repeat("0", 100000) + "1" + z + "e100001]"} {
+		if !ev.Mine(i + 1) {
+			continue
+		}
+		check(t, chkHuge, []byte(in), true, fmt.Sprintf("literal %d", i))
+	}
+	ev.Exhaustive(chkHuge)
 }
 
 // ---- doubles by bit pattern -----------------------------------------------------------------------------
